@@ -138,6 +138,148 @@ theorem run_sim (ops : List Op) (s : Sys) (r : Ref) (h : Rel s r) :
     simp only [Sys.run, Ref.run]
     rw [hs.1, ih _ _ hs.2]
 
+/-! ### no aliasing between live register sets and the pool -/
+
+def heldP (i : Nat) (bc : Bool × RegSet) : Bool := bc.1 && bc.2.id == i
+def poolP (i : Nat) (o : Option RegSet) : Bool := match o with | some c => c.id == i | none => false
+
+def heldCount (s : Sys) (i : Nat) : Nat := s.held.countP (heldP i)
+def poolCount (p : VPool) (i : Nat) : Nat := p.slots.countP (poolP i)
+
+/-- no register set (identity ≥ 1, i.e. non-empty) has two owners, and identities not yet
+allocated are owned by nobody -/
+def NoAlias (s : Sys) : Prop :=
+  ∀ i, 1 ≤ i → heldCount s i + poolCount s.pool i ≤ 1 ∧ (s.pool.nextId ≤ i → heldCount s i + poolCount s.pool i = 0)
+
+theorem boole_le_countP {α} (p : α → Bool) (l : List α) (k : Nat) (h : k < l.length) :
+    (if p l[k] = true then 1 else 0) ≤ l.countP p := List.boole_getElem_le_countP (p := p) h
+
+theorem noalias_init (size maxAge : Nat) : NoAlias (Sys.init size maxAge) := by
+  intro i _
+  have : (List.replicate size (none : Option RegSet)).countP (poolP i) = 0 := by
+    rw [List.countP_eq_zero]; intro a ha; rw [List.mem_replicate] at ha; simp [ha.2, poolP]
+  simp [heldCount, poolCount, Sys.init, VPool.new, this]
+
+
+theorem heldCount_append (s : Sys) (p : VPool) (c : RegSet) (i : Nat) :
+    heldCount { pool := p, held := s.held ++ [(true, c)] } i = heldCount s i + (if c.id == i then 1 else 0) := by
+  simp [heldCount, heldP, List.countP_append, List.countP_cons]
+
+theorem noalias_get (s : Sys) (sz : Nat) (h : NoAlias s) : NoAlias (s.step (.get sz)).1 := by
+  intro i hi
+  obtain ⟨h1, h2⟩ := h i hi
+  simp only [Sys.step, VPool.get]
+  split
+  · rename_i k hk
+    have hs := findLen_spec sz s.pool.slots 0 k hk
+    simp only [Nat.sub_zero] at hs
+    have hlt := hs.2.1
+    rw [heldCount_append]
+    simp only [poolCount]
+    rw [List.countP_set hlt]
+    have hb := boole_le_countP (poolP i) s.pool.slots k hlt
+    have hgd : s.pool.slots.getD k none = s.pool.slots[k] := by
+      rw [List.getD_eq_getElem?_getD, List.getElem?_eq_getElem hlt]; rfl
+    rw [hgd]
+    simp only [poolCount] at h1 h2
+    cases hc : s.pool.slots[k] with
+    | none =>
+      simp only [hc, poolP] at hb ⊢
+      have : ((0 : Nat) == i) = false := by simp; omega
+      simp only [this, Bool.false_eq_true, if_false, Nat.sub_zero, Nat.add_zero]
+      exact ⟨h1, h2⟩
+    | some c =>
+      simp only [hc, poolP] at hb ⊢
+      simp only [Bool.false_eq_true, if_false, Nat.add_zero]
+      by_cases hci : (c.id == i) = true
+      · simp only [hci, if_true] at hb ⊢
+        exact ⟨by omega, fun hn => by have := h2 hn; omega⟩
+      · simp only [hci, Bool.false_eq_true, ↓reduceIte, Nat.sub_zero, Nat.add_zero]
+        exact ⟨h1, h2⟩
+  · split
+    · rw [heldCount_append]
+      have : ((0 : Nat) == i) = false := by simp; omega
+      simp only [this, Bool.false_eq_true, if_false, Nat.add_zero]
+      exact ⟨h1, h2⟩
+    · rw [heldCount_append]
+      simp only [poolCount] at h1 h2 ⊢
+      by_cases hin : s.pool.nextId ≤ i
+      · have h0 := h2 hin
+        by_cases hci : (s.pool.nextId == i) = true
+        · simp only [hci, if_true]
+          have : s.pool.nextId = i := by simpa using hci
+          exact ⟨by omega, fun hn => by omega⟩
+        · simp only [hci, Bool.false_eq_true, ↓reduceIte, Nat.add_zero]
+          exact ⟨by omega, fun _ => h0⟩
+      · have : (s.pool.nextId == i) = false := by simp; omega
+        simp only [this, Bool.false_eq_true, if_false, Nat.add_zero]
+        exact ⟨h1, fun hn => by omega⟩
+
+theorem getElem?_some_lt {α} {l : List α} {k : Nat} {a : α} (h : l[k]? = some a) : ∃ hlt : k < l.length, l[k] = a :=
+  List.getElem?_eq_some_iff.mp h
+
+theorem noalias_step (s : Sys) (op : Op) (h : NoAlias s) : NoAlias (s.step op).1 := by
+  cases op with
+  | get sz => exact noalias_get s sz h
+  | read hd idx =>
+    simp only [Sys.step]
+    split <;> exact h
+  | write hd idx v =>
+    simp only [Sys.step]
+    split
+    · rename_i c hc
+      obtain ⟨hlt, hget⟩ := getElem?_some_lt hc
+      intro i hi
+      have := h i hi
+      simp only [heldCount, poolCount] at this ⊢
+      rw [List.countP_set hlt, hget]
+      have hb := boole_le_countP (heldP i) s.held hd hlt
+      rw [hget] at hb
+      simp only [heldP] at hb ⊢
+      by_cases hci : (c.id == i) = true
+      · simp only [hci, Bool.and_self, if_true] at hb ⊢
+        exact ⟨by omega, fun hn => by have := this.2 hn; omega⟩
+      · simp only [hci, Bool.and_false, Bool.false_eq_true, ↓reduceIte, Nat.sub_zero, Nat.add_zero]
+        exact this
+    · exact h
+  | release hd =>
+    simp only [Sys.step]
+    split
+    · rename_i c hc
+      obtain ⟨hlt, hget⟩ := getElem?_some_lt hc
+      intro i hi
+      have := h i hi
+      simp only [heldCount, poolCount] at this ⊢
+      rw [List.countP_set hlt, hget]
+      have hb := boole_le_countP (heldP i) s.held hd hlt
+      rw [hget] at hb
+      simp only [heldP, Bool.true_and, Bool.false_and, Bool.false_eq_true, ↓reduceIte, Nat.add_zero] at hb ⊢
+      cases hfe : findExpired s.pool.gen s.pool.exps 0 with
+      | none =>
+        simp only [VPool.release, hfe]
+        exact ⟨by omega, fun hn => by have := this.2 hn; omega⟩
+      | some k =>
+        simp only [VPool.release, hfe]
+        by_cases hkl : k < s.pool.slots.length
+        · rw [List.countP_set hkl]
+          have hb2 := boole_le_countP (poolP i) s.pool.slots k hkl
+          simp only [poolP]
+          by_cases hci : (c.id == i) = true
+          · simp only [hci, if_true] at hb ⊢
+            exact ⟨by omega, fun hn => by have := this.2 hn; omega⟩
+          · simp only [hci, Bool.false_eq_true, ↓reduceIte, Nat.sub_zero, Nat.add_zero] at hb ⊢
+            exact ⟨by omega, fun hn => by have := this.2 hn; omega⟩
+        · rw [List.set_eq_of_length_le (by omega)]
+          exact ⟨by omega, fun hn => by have := this.2 hn; omega⟩
+    · exact h
+
+theorem noalias_run (ops : List Op) (s : Sys) (h : NoAlias s) : NoAlias (s.run ops).1 := by
+  induction ops generalizing s with
+  | nil => exact h
+  | cons op ops ih =>
+    simp only [Sys.run]
+    exact ih _ (noalias_step s op h)
+
 /-! ### continuation pools -/
 
 def CInv (s : CSys) : Prop :=
